@@ -95,7 +95,7 @@ impl QGen {
     }
     /// a constraint of the kinds the Lean model covers
     pub fn constraint_modelled(&mut self) -> String {
-        let body = match self.rng.below(10) {
+        let body = match self.rng.below(13) {
             0 => format!("ID {}", self.q()),
             1 => match self.rng.below(4) { 0 => format!("TEXT AS NOCASE {}", self.q()), 1 => format!("TEXT AS REGEX \"{}\"", self.rng.pick(&["a+b", "[A-Z]\\\\w+", "x|y", "a("])), 2 => format!("TEXT {}", self.var()), _ => format!("TEXT {}", self.q()) },
             2 => format!("DATASET{} {}", self.qual(), if self.rng.chance(50) { self.q() } else { self.var() }),
@@ -104,7 +104,16 @@ impl QGen {
             6 => format!("DATA{} {}", self.qual(), self.var()),
             7 => format!("DATA{} {} {}", self.qual(), self.var(), self.opval()),
             8 => match self.rng.below(3) { 0 => "SUBSTORE NONE".to_string(), 1 => format!("SUBSTORE {}", self.var()), _ => format!("SUBSTORE {}", self.q()) },
-            _ => format!("ID {}", self.var()),
+            _ => match self.rng.below(8) {
+                0 => { let r = if self.rng.chance(30) { " RECURSIVE" } else { "" }; format!("ANNOTATION{}{} {}{}", self.qual(), r, if self.rng.chance(50) { self.q() } else { self.var() }, self.offset()) }
+                1 => format!("RESOURCE{} {}{}", self.qual(), if self.rng.chance(50) { self.q() } else { self.var() }, self.offset()),
+                2 => format!("RELATION {} {}", self.var(), self.rng.pick(RELS)),
+                3 => format!("VALUE{} {}", self.qual(), self.opval()),
+                4 => format!("KEY{} {}", self.qual(), self.var()),
+                5 => match self.rng.below(3) { 0 => format!("LIMIT {}", self.rng.below(20)), 1 => format!("LIMIT -{}", self.rng.below(20)), _ => format!("LIMIT {} {}", self.rng.range(-9, 9), self.rng.range(-9, 20)) },
+                6 => format!("RESOURCE {} OFFSET {}", self.q(), self.rng.pick(&["WHOLE", "ALL", "0", "-0 -0", "3 WHOLE", "+2 5", "18446744073709551616", "-9223372036854775809", "1 -1;"])),
+                _ => format!("ID {}", self.var()),
+            },
         };
         format!("{};", body)
     }
@@ -245,6 +254,11 @@ fn show_op(op: &DataOperator) -> String {
     }
 }
 
+fn show_off(off: &Option<Offset>) -> String {
+    let c = |c: &Cursor| match c { Cursor::BeginAligned(n) => format!("b{}", n), Cursor::EndAligned(n) => format!("e{}", n) };
+    match off { None => "-".into(), Some(o) => format!("{}:{}", c(&o.begin), c(&o.end)) }
+}
+
 fn render_cn(c: &Constraint) -> Option<String> {
     let q = |x: &SelectionQualifier| if *x == SelectionQualifier::Metadata { "M" } else { "N" };
     Some(match c {
@@ -261,6 +275,14 @@ fn render_cn(c: &Constraint) -> Option<String> {
         Constraint::KeyValue { set, key, operator, qualifier } => format!("keyvalue {} {} {} {}", hex(set), hex(key), q(qualifier), show_op(operator)),
         Constraint::DataVariable(v, x) => format!("datavar {} {}", hex(v), q(x)),
         Constraint::KeyValueVariable(v, operator, x) => format!("keyvaluevar {} {} {}", hex(v), q(x), show_op(operator)),
+        Constraint::Annotation(s, x, depth, off) => format!("annotation {} {} {} {}", hex(s), q(x), (*depth == AnnotationDepth::Max) as u8, show_off(off)),
+        Constraint::AnnotationVariable(v, x, depth, off) => format!("annotationvar {} {} {} {}", hex(v), q(x), (*depth == AnnotationDepth::Max) as u8, show_off(off)),
+        Constraint::TextResource(s, x, off) => format!("resource {} {} {}", hex(s), q(x), show_off(off)),
+        Constraint::ResourceVariable(v, x, off) => format!("resourcevar {} {} {}", hex(v), q(x), show_off(off)),
+        Constraint::TextRelation { var, operator } => format!("relation {} {}", hex(var), operator.as_str()),
+        Constraint::Value(operator, x) => format!("value {} {}", q(x), show_op(operator)),
+        Constraint::KeyVariable(v, x) => format!("keyvar {} {}", hex(v), q(x)),
+        Constraint::Limit { begin, end } => format!("limit {} {}", begin, end),
         _ => return None,
     })
 }
